@@ -78,6 +78,16 @@ func TestDriveC04(t *testing.T) {
 				prior = append(prior, []int{0, 255, c}[(j/(1+r.Intn(7)))%3])
 			}
 		}
+		// a constant stretch a few steps away from the limit the history has just driven the loop into (saturated loop
+		// state, integral included, is the interesting starting point of the approach)
+		if len(prior) > 3 && r.Intn(3) == 0 {
+			last := prior[len(prior)-1]
+			if last >= 250 {
+				c = 255 - (1 + r.Intn(45))
+			} else if last <= 5 {
+				c = 1 + r.Intn(45)
+			}
+		}
 		m := []int{1, 2, 3, 5, 10, 50, 255}[r.Intn(7)]
 		dt := []int{50, 200, 200, 1000, 2000}[r.Intn(5)]
 		algs := []AlgSpec{{T: "direct"}, {T: "rate", M: m}, DefaultPid(dt)}
